@@ -37,6 +37,10 @@ FILTERS = ['ftables:%s:%s' % (f, m) for f, m in (('Size', 'JACCARD'), ('Prefix',
                                                  ('Prefix', 'EDIT_DISTANCE'))]
 CANDSETS = ['candset:Size:JACCARD', 'candset:Overlap:OVERLAP', 'candset:Position:EDIT_DISTANCE']
 EPS = JOINS + FILTERS + CANDSETS + ['matcher', 'profile']
+# valid side: every filter x every measure, through filter_tables and filter_candset
+VALID_EPS = EPS + [e for e in ['%s:%s:%s' % (k, f, m) for k in ('ftables', 'candset')
+                               for f in ('Size', 'Prefix', 'Position', 'Suffix')
+                               for m in ('JACCARD', 'COSINE', 'DICE', 'OVERLAP', 'EDIT_DISTANCE')] if e not in EPS]
 
 
 def measure_of(ep):
@@ -258,6 +262,7 @@ SHAPES = {
     'left-missing-only': ([None, 'a'], ['a', 'a b']),
     'right-missing-only': (['a', 'a b'], [None, 'a']),
     'mixed': (['a b', '', None, 'b'], ['b a', None, '']),
+    'many-tokens': (['a b c d e f g h', 'c d e f g h i j k l', None], ['a b c d e f g h i', 'k l m n o p']),
 }
 
 
@@ -272,7 +277,7 @@ def w_valid(job):
         for dtype in ('object', 'str', 'string'):
             for mv in (None, float('nan')):
                 for set_mode in (True, False):
-                    ths = {'OVERLAP': [1, 3], 'EDIT_DISTANCE': [0, 2.5]}.get(m, [1.0, 0.001])
+                    ths = {'OVERLAP': [1, 3, 2.0, 2.5], 'EDIT_DISTANCE': [0, 2.5, 2.0, 3]}.get(m, [1.0, 0.001])
                     if ep in ('matcher', 'profile'):
                         ths = [0.5]
                     for t in ths:
@@ -339,11 +344,13 @@ def layers(tier):
     Ls.append(Layer('pairs-of-invalid', 'checks.c15:w_invalid', jobs,
                     'all pairs of two simultaneous invalid kinds touching different arguments (either documented '
                     'exception type accepted)', min_nontrivial=2000, chunksize=1))
-    jobs = [{'ep': ep} for ep in EPS]
+    jobs = [{'ep': ep} for ep in VALID_EPS]
     Ls.append(Layer('valid-shapes', 'checks.c15:w_valid', jobs,
+                    '%d entry points (every filter x every measure through filter_tables and filter_candset) x '
                     'valid degenerate shapes (no rows on either/both sides, one row, all missing, all empty, '
                     'one-sided missing, mixed) x dtypes object / str / string x None / NaN x set / bag tokenizer x '
-                    'boundary thresholds (1.0, 0.001, overlap 1, edit 0 and non-integral): must return a DataFrame',
+                    'boundary thresholds (1.0, 0.001; overlap and edit distance as int and as float, integral and not): must return a DataFrame'
+                    % len(VALID_EPS),
                     min_nontrivial=500, chunksize=1))
     return Ls
 
